@@ -98,20 +98,25 @@ REFUTED_WITNESS2 = 'OPS 2 3 P 0 0 A 0 0 K %d 1 0'   # OutRec 0: pts = nullptr, s
 def witness2(ctx, env):
     """the witness of C04_check_split_terminates_refuted_pointless_cycle on the real CheckSplitOwner: OutRec 0 has no points
     and its split list contains itself.  In the unguarded shape: unbounded recursion (stack overflow) in the code, out of
-    fuel in the model; in the guarded shape (the repair): both return, with the same answer."""
+    fuel in the model; in the guarded shape (the repair): both return, with the same answer.  The dumped states on which the
+    two shapes differ crash the unguarded code (so they never reach the comparison): this replay is what tells them apart."""
     if env.dead or env.shape is None:
         return
-    g = (env.shape >> 2) & 1
+    p0 = vf.run_lines(env.exes['owner'], [REFUTED_WITNESS2 % 0], timeout=60)
+    g = 0 if p0.returncode != 0 else 1
+    cands = [v for v in getattr(env, 'agreeing', [env.shape]) if ((v >> 2) & 1) == g]
     line = REFUTED_WITNESS2 % g
-    p2 = vf.run_lines(env.exes['owner'], [line], timeout=60)
     m2 = vf.run_lines(env.oracle, [line], timeout=60).stdout.strip()
-    ctx.cov['refuted_witness2_replayed'] = dict(line=line, cpp_returncode=p2.returncode, cpp=p2.stdout.strip()[-60:], model=m2[-60:])
-    ok = (p2.returncode != 0 and m2.endswith('HANG')) if g == 0 else (p2.returncode == 0 and p2.stdout.strip() == m2)
+    ctx.cov['refuted_witness2_replayed'] = dict(line=line, cpp_returncode=p0.returncode, cpp=p0.stdout.strip()[-60:], model=m2[-60:])
+    ok = bool(cands) and (m2.endswith('HANG') if g == 0 else p0.stdout.strip() == m2)
+    if cands:
+        env.shape = cands[0]
+        ctx.cov['model_shape_matched'] = [SHAPES[v] for v in cands]
     if not ok:
         ctx.violation('tie.owner-ops', 'CheckSplitOwner on a point-less OutRec whose split list contains itself (witness of '
-                      'C04_check_split_terminates_refuted_pointless_cycle; model shape "%s"): real rc=%s %s / model %s'
-                      % (SHAPES[env.shape], p2.returncode, p2.stdout.strip()[-80:], m2[-80:]),
-                      replay=dict(kind='ops', line=line, cpp=p2.stdout.strip(), model=m2), nofail=True)
+                      'C04_check_split_terminates_refuted_pointless_cycle): real rc=%s %s / model %s; model shapes agreeing on all '
+                      'dumped states: %s' % (p0.returncode, p0.stdout.strip()[-80:], m2[-80:], [SHAPES[v] for v in getattr(env, 'agreeing', [])]),
+                      replay=dict(kind='ops', line=line, cpp=p0.stdout.strip(), model=m2), nofail=True)
 
 
 def phase_ops(ctx, env, n):
@@ -858,6 +863,7 @@ def decide_tie(ctx, env):
     ctx.cov['tie_tree_disagreements_by_model_shape'] = {SHAPES[v]: len(env.tie_miss[v]) for v in range(NSHAPES)}
     if agreeing:
         env.shape = agreeing[0]
+        env.agreeing = agreeing
         ctx.cov['model_shape_matched'] = [SHAPES[v] for v in agreeing]
         return
     v = min(range(NSHAPES), key=lambda w: len(env.tie_miss[w]))
